@@ -30,6 +30,11 @@ var (
 	errDAGFileEmpty       = errors.New("dagFile is empty")
 
 	rTimestamp = regexp.MustCompile(`2\d{7}.\d{2}:\d{2}:\d{2}(\.\d{3})?`)
+	// rTimestampAtEnd matches "<timestamp>.<request id>[_c].dat" at the end of a
+	// history file name.
+	rTimestampAtEnd = regexp.MustCompile(
+		`(2\d{7}.\d{2}:\d{2}:\d{2}(\.\d{3})?)\.[^./]*\.dat$`,
+	)
 )
 
 const (
@@ -376,12 +381,12 @@ func filterLatest(files []string, n int) []string {
 
 func timestamp(file string) string {
 	// The DAG name precedes the timestamp in the file name and may itself look
-	// like a timestamp, so take the last match in the base name.
-	matches := rTimestamp.FindAllString(filepath.Base(file), -1)
-	if len(matches) == 0 {
-		return ""
+	// like a timestamp, so prefer the timestamp that newFile puts right before
+	// the request ID at the end of the name.
+	if m := rTimestampAtEnd.FindStringSubmatch(file); m != nil {
+		return m[1]
 	}
-	return matches[len(matches)-1]
+	return rTimestamp.FindString(file)
 }
 
 func readLineFrom(f *os.File, offset int64) ([]byte, error) {
